@@ -36,7 +36,7 @@ KMAX = 16
 
 def program_strategy(cfg, cache):
     from hypothesis import strategies as _st
-    return _st.one_of(gen.program(cfg, cache), gen.program(cfg, cache), gen.program(cfg, cache), gen.ancestor_pattern_program(cfg, cache))
+    return gen.weighted([(3, gen.program(cfg, cache)), (1, gen.ancestor_pattern_program(cfg, cache))])
 
 
 def drive(draw, h, cfg):
